@@ -227,4 +227,356 @@ theorem numpy_lastTok (pre K D body : Str)
   rw [quiet_sound body _ _ none D [] (Or.inl rfl) hq]
   congr 2; omega
 
+/-! ### `_get_end_of_last_found` on a NumPy docstring -/
+
+theorem getElem?_append_nl_ge (a b : Str) (j : Nat) (ha : '\n' ∉ a) (h : (a ++ b)[j]? = some '\n') :
+    ∃ j', j = a.length + j' ∧ b[j']? = some '\n' := by
+  by_cases hj : j < a.length
+  · rw [List.getElem?_append_left hj] at h
+    exact absurd (List.mem_of_getElem? h) ha
+  · refine ⟨j - a.length, by omega, ?_⟩
+    rw [List.getElem?_append_right (by omega)] at h; exact h
+
+theorem numpy_endOfLastFound (p K D body : Str) (hp : p ≠ [])
+    (hK : inSet numpySet K = true) (hD : allDashes D = true) (hKD : K.length ≤ D.length) :
+    ∀ fmt : Style, ∃ lfe, endOfLastFound (p ++ ['\n'] ++ K ++ '\n' :: (D ++ '\n' :: body)).toArray
+        (((p.length + 1 + K.length + 1 + K.length : Nat) : Int)) (some (((p.length + 1 + K.length + 1 : Nat) : Int))) fmt = .ok lfe
+      ∧ (lfe = none ∨ ∃ j, ('\n' :: body)[j]? = some '\n'
+            ∧ lfe = some (((p.length + 1 + K.length + 1 + D.length + j + 1 : Nat) : Int))) := by
+  obtain ⟨_, _, _, hKne, hKnl⟩ := numpy_word_facts K hK
+  obtain ⟨_, hDnl⟩ := dashes_facts D hD
+  have hK1 : 1 ≤ K.length := List.length_pos_iff.mpr hKne
+  intro fmt
+  generalize hdd : p ++ ['\n'] ++ K ++ '\n' :: (D ++ '\n' :: body) = d
+  -- the text from `last_found` on
+  have hdrop : d.drop (p.length + 1 + K.length + 1 + K.length) = D.drop K.length ++ '\n' :: body := by
+    have := drop_in_line (p ++ ['\n'] ++ K ++ ['\n']) D ('\n' :: body) K.length hKD
+    have e : p ++ ['\n'] ++ K ++ ['\n'] ++ D ++ '\n' :: body = d := by rw [← hdd]; simp
+    rw [e] at this
+    rw [← this]; congr 1
+    simp only [List.length_append, List.length_singleton]
+  rw [endOfLastFound_eq_F]
+  unfold endOfLastFoundF
+  simp only [Int.toNat_natCast, hdrop, endScan_line _ _ _ _ (notMem_drop K.length hDnl)]
+  -- the segment between `last_found_starts` and `last_found` is made of dashes
+  have hseg : allDashes (slice d (some (((p.length + 1 + K.length + 1 : Nat) : Int))) (some (((p.length + 1 + K.length + 1 + K.length : Nat) : Int)))) = true := by
+    rw [slice_mid_nat]
+    have : d.drop (p.length + 1 + K.length + 1) = D ++ '\n' :: body := by
+      have := drop_in_line (p ++ ['\n'] ++ K ++ ['\n']) D ('\n' :: body) 0 (by omega)
+      have e : p ++ ['\n'] ++ K ++ ['\n'] ++ D ++ '\n' :: body = d := by rw [← hdd]; simp
+      rw [e] at this
+      simp only [Nat.add_zero, List.drop_zero, List.length_append, List.length_singleton] at this
+      exact this
+    rw [this]
+    have h2 : p.length + 1 + K.length + 1 + K.length - (p.length + 1 + K.length + 1) = K.length := by omega
+    rw [h2, List.take_append_of_le_length hKD]
+    exact List.all_eq_true.mpr (fun c hc => List.all_eq_true.mp hD c (List.mem_of_mem_take hc))
+  by_cases hfmt : fmt ≠ .numpydoc
+  · -- ReST / Google format (a token of those styles occurs somewhere): the end of the underline's line
+    have hf : (fmt == Style.numpydoc) = false := by cases fmt <;> first | rfl | exact absurd rfl hfmt
+    simp only [hf, Bool.false_and, Bool.false_eq_true, if_false]
+    refine ⟨_, rfl, Or.inr ⟨0, rfl, ?_⟩⟩
+    congr 1
+    simp only [List.length_drop]
+    omega
+  have hfmt : fmt = .numpydoc := Classical.not_not.mp hfmt
+  subst hfmt
+  simp only [beq_self_eq_true, hseg, Bool.and_self, if_true, Option.getD_some]
+  unfold endOfLastFoundNumpydocF
+  -- the line before the underline is the heading
+  have hback : scanBackNl d.toArray ((((p.length + 1 + K.length + 1 : Nat) : Int)) - 1 - 1) = .ok (some ((p.length + 1 : Nat) : Int)) := by
+    have := scanBackNl_line p K ('\n' :: (D ++ '\n' :: body)) hp hKnl K.length (Nat.le_refl _)
+    have e : p ++ '\n' :: (K ++ '\n' :: (D ++ '\n' :: body)) = d := by rw [← hdd]; simp
+    rw [e] at this
+    rw [← this]; congr 1; omega
+  have hhead : slice d (some ((p.length + 1 : Nat) : Int)) (some ((((p.length + 1 + K.length + 1 : Nat) : Int)) - 1)) = K := by
+    have e1 : (((p.length + 1 + K.length + 1 : Nat) : Int)) - 1 = ((p.length + 1 + K.length : Nat) : Int) := by omega
+    rw [e1, slice_mid_nat]
+    have := drop_in_line (p ++ ['\n']) K ('\n' :: (D ++ '\n' :: body)) 0 (by omega)
+    rw [hdd] at this
+    simp only [Nat.add_zero, List.drop_zero, List.length_append, List.length_singleton] at this
+    rw [this]
+    have h2 : p.length + 1 + K.length - (p.length + 1) = K.length := by omega
+    rw [h2, List.take_left']
+    rfl
+  simp only [hback, ok_bind, hhead, hK, if_true, Int.toNat_natCast, hdrop]
+  rcases numScan_result (D.drop K.length ++ '\n' :: body) (p.length + 1 + K.length + 1 + K.length) none [] with h | ⟨j0, hj0, h⟩
+  · rw [h]; exact ⟨none, rfl, Or.inl rfl⟩
+  · rw [h]
+    obtain ⟨j, hj, hjb⟩ := getElem?_append_nl_ge _ _ j0 (notMem_drop K.length hDnl) hj0
+    have hidx : d[p.length + 1 + K.length + 1 + K.length + j0]? = some '\n' := by
+      rw [← List.getElem?_drop, hdrop]; exact hj0
+    simp only [Int.toNat_natCast]
+    rw [scanBackNlHit_at_nl d _ (by omega) hidx]
+    refine ⟨_, rfl, Or.inr ⟨j, hjb, ?_⟩⟩
+    simp only [List.length_drop] at hj
+    congr 1
+    omega
+
+/-! ### where the backward `while` stops: always at the newline before some line of the body -/
+
+/-- started at the last character of the string -/
+theorem numpy_pathX (front body : Str) :
+    ∃ ca X R, (loopA (front ++ '\n' :: body).toArray).run (((front ++ '\n' :: body).length : Int) - 1)
+        = (((front.length + X.length : Nat) : Int), .cond, ca)
+      ∧ body = X ++ R ∧ (X = [] ∨ X.getLast? = some '\n') ∧ R.drop (leadingWs R) = skipInd R := by
+  generalize hdd : front ++ '\n' :: body = d
+  have hnl : '\n' ∈ d := by rw [← hdd]; simp
+  obtain ⟨A, hA⟩ := lastLine_decomp d hnl
+  have hZ := lastLine_noNl d
+  generalize hZd : lastLine d = Z at hA hZ
+  have hle : Z.length ≤ body.length := by
+    have := lastLine_le front body
+    rw [hdd, hZd] at this; exact this
+  have hZs : Z <:+ d := ⟨A ++ ['\n'], by rw [hA]; simp⟩
+  have hbs : body <:+ d := ⟨front ++ ['\n'], by rw [← hdd]; simp⟩
+  obtain ⟨X, hX⟩ := List.suffix_of_suffix_length_le hZs hbs hle
+  have hAX : A ++ ['\n'] = front ++ ['\n'] ++ X := by
+    have : (A ++ ['\n']) ++ Z = (front ++ ['\n'] ++ X) ++ Z := by
+      rw [List.append_assoc (front ++ ['\n']), hX]
+      simp only [List.append_assoc, List.singleton_append]
+      rw [← hA, hdd]
+    exact List.append_cancel_right this
+  have hlen : A.length = front.length + X.length := by
+    have := congrArg List.length hAX
+    simp only [List.length_append, List.length_singleton] at this; omega
+  refine ⟨Z.length + 1, X, Z, ?_, hX.symm, ?_, ?_⟩
+  · have := loopA_back A Z [] hZ Z.length (Nat.le_refl _)
+    rw [List.append_nil, ← hA] at this
+    have e : ((d.length : Nat) : Int) - 1 = ((A.length + Z.length : Nat) : Int) := by
+      rw [hA]; simp only [List.length_append, List.length_cons]; omega
+    rw [e, this, hlen]
+  · rcases List.eq_nil_or_concat X with h | ⟨X', c, h⟩
+    · exact Or.inl h
+    · right
+      subst h
+      have := congrArg List.getLast? hAX
+      simp only [List.concat_eq_append, List.getLast?_append, List.getLast?_singleton, Option.some_or] at this
+      simp only [List.concat_eq_append, List.getLast?_append, List.getLast?_singleton, Option.some_or]
+      exact this.symm
+  · rw [drop_leadingWs, skipInd_line Z hZ]
+
+/-- started at a newline `j` characters after the underline's newline, when the next line is not indented -/
+theorem numpy_pathY (front body : Str) (j : Nat) (hj : ('\n' :: body)[j]? = some '\n')
+    (hws : leadingWs ((front ++ '\n' :: body).drop (front.length + j + 1)) = 0) :
+    ∃ ca X R, (loopA (front ++ '\n' :: body).toArray).run (((front.length + j : Nat) : Int))
+        = (((front.length + X.length : Nat) : Int), .cond, ca)
+      ∧ body = X ++ R ∧ (X = [] ∨ X.getLast? = some '\n') ∧ R.drop (leadingWs R) = skipInd R := by
+  have hjl : j < body.length + 1 := by
+    have := (List.getElem?_eq_some_iff.mp hj).1
+    simpa using this
+  have hdrop : (front ++ '\n' :: body).drop (front.length + j + 1) = body.drop j := by
+    have : front ++ '\n' :: body = (front ++ ['\n']) ++ body := by simp
+    rw [this, List.drop_append, List.drop_of_length_le (by simp), List.nil_append]
+    congr 1; simp
+  rw [hdrop] at hws
+  have hW : '\n' :: body = ('\n' :: body).take j ++ '\n' :: body.drop j := by
+    have h1 := List.take_append_drop j ('\n' :: body)
+    have h2 : ('\n' :: body).drop j = '\n' :: body.drop j := by
+      have hlt : j < ('\n' :: body).length := by simpa using hjl
+      rw [List.drop_eq_getElem_cons hlt]
+      have : ('\n' :: body)[j] = '\n' := by
+        have := List.getElem?_eq_getElem hlt
+        rw [hj] at this; exact (Option.some.inj this).symm
+      rw [this]; simp
+    rw [h2] at h1; exact h1.symm
+  refine ⟨1, body.take j, body.drop j, ?_, (List.take_append_drop j body).symm, ?_, ?_⟩
+  · have hd : front ++ '\n' :: body = (front ++ ('\n' :: body).take j) ++ '\n' :: body.drop j := by
+      rw [List.append_assoc, ← hW]
+    have := loopA_at_nl (front ++ ('\n' :: body).take j) (body.drop j)
+    rw [← hd] at this
+    have hl : (front ++ ('\n' :: body).take j).length = front.length + j := by
+      simp only [List.length_append, List.length_take, List.length_cons]; omega
+    rw [hl] at this
+    rw [this]
+    have : (body.take j).length = j := by simp only [List.length_take]; omega
+    rw [this]
+  · cases j with
+    | zero => left; rfl
+    | succ j' =>
+      right
+      simp only [List.getElem?_cons_succ] at hj
+      have hlt : j' < body.length := by omega
+      rw [List.getLast?_take]
+      simp only [Nat.add_one_ne_zero, if_false, Nat.add_sub_cancel]
+      rw [hj]; rfl
+  · rw [hws, List.drop_zero, skipInd_ns _ hws]
+
+/-! ### `_get_token_last_idx` on a NumPy docstring -/
+
+/-- the state in which the `while` loop of `_get_token_last_idx_if_no_next_token` starts: the first line of the body -/
+def cStart (S0 : Nat) : CState := { lineStart := S0, lineEnd := S0, prevEnd := S0 }
+
+/-- **NumPy**: the answer of `_get_token_last_idx` is the answer of the line loop of
+    `_get_token_last_idx_if_no_next_token`, run on the body of the last section, plus one -/
+theorem numpy_last (p K D body : Str) (hp : p ≠ [])
+    (hK : inSet numpySet K = true) (hD : allDashes D = true) (hKD : K.length ≤ D.length)
+    (hq : quiet none [] body = true) (hls : lineStartsOk true body = true) :
+    tokenLastIdx (p ++ ['\n'] ++ K ++ '\n' :: (D ++ '\n' :: body)).toArray
+      = .ok ((((loopC (p ++ ['\n'] ++ K ++ '\n' :: (D ++ '\n' :: body)).toArray).run
+                (cStart (p.length + 1 + K.length + 1 + D.length + 1))).1.prevEnd : Int) + 1) := by
+  obtain ⟨_, _, _, hKne, hKnl⟩ := numpy_word_facts K hK
+  obtain ⟨_, hDnl⟩ := dashes_facts D hD
+  have hK1 : 1 ≤ K.length := List.length_pos_iff.mpr hKne
+  have hDne : D ≠ [] := by intro e; rw [e] at hKD; simp only [List.length_nil] at hKD; omega
+  -- the pieces of the pipeline
+  have h1 := numpy_lastTok (p ++ ['\n']) K D body (Or.inr ⟨'\n', by simp, isSpaceC_nl⟩) hK hD hDne hq
+  have hlf : (((p ++ ['\n']).length + K.length + 1 + K.length : Nat) : Int) = ((p.length + 1 + K.length + 1 + K.length : Nat) : Int) := by
+    simp only [List.length_append, List.length_singleton]
+  rw [hlf] at h1
+  obtain ⟨lfe, h3, hlfe⟩ := numpy_endOfLastFound p K D body hp hK hD hKD
+    (deriveFormat (p ++ ['\n'] ++ K ++ '\n' :: (D ++ '\n' :: body)).toArray)
+  generalize hfront : p ++ ['\n'] ++ K ++ ['\n'] ++ D = front
+  have hfl : front.length = p.length + 1 + K.length + 1 + D.length := by
+    rw [← hfront]; simp only [List.length_append, List.length_singleton]
+  have hdf : p ++ ['\n'] ++ K ++ '\n' :: (D ++ '\n' :: body) = front ++ '\n' :: body := by rw [← hfront]; simp
+  have h2 : startOfLastFound (p ++ ['\n'] ++ K ++ '\n' :: (D ++ '\n' :: body)).toArray ((p.length + 1 + K.length + 1 + K.length : Nat) : Int)
+      = .ok (some ((p.length + 1 + K.length + 1 : Nat) : Int)) := by
+    unfold startOfLastFound
+    have := scanBackNl_line (p ++ ['\n'] ++ K) D ('\n' :: body) (by simp) hDnl K.length hKD
+    have e1 : (((p ++ ['\n'] ++ K).length + K.length : Nat) : Int) = ((p.length + 1 + K.length + 1 + K.length : Nat) : Int) - 1 := by
+      simp only [List.length_append, List.length_singleton]; omega
+    have e2 : (((p ++ ['\n'] ++ K).length + 1 : Nat) : Int) = ((p.length + 1 + K.length + 1 : Nat) : Int) := by
+      simp only [List.length_append, List.length_singleton]
+    rw [e1, e2] at this; exact this
+  rw [hdf] at h1 h2 h3 ⊢
+  -- where the backward `while` stops
+  have h4 : ∃ ca X R, (loopA (front ++ '\n' :: body).toArray).run (findEndOfArgsReturns (front ++ '\n' :: body).toArray lfe)
+        = (((front.length + X.length : Nat) : Int), .cond, ca)
+      ∧ body = X ++ R ∧ (X = [] ∨ X.getLast? = some '\n') ∧ R.drop (leadingWs R) = skipInd R := by
+    rcases hlfe with hn | ⟨j, hj, hs⟩
+    · subst hn
+      have : findEndOfArgsReturns (front ++ '\n' :: body).toArray none = ((front ++ '\n' :: body).length : Int) - 1 := by
+        simp [findEndOfArgsReturns, n_eq]
+      rw [this]; exact numpy_pathX front body
+    · subst hs
+      have e : p.length + 1 + K.length + 1 + D.length + j + 1 = front.length + j + 1 := by omega
+      rw [e]
+      by_cases hws : leadingWs ((front ++ '\n' :: body).drop (front.length + j + 1)) = 0
+      · rw [findEnd_ns _ _ hws]
+        have : ((front.length + j + 1 : Nat) : Int) - 1 = ((front.length + j : Nat) : Int) := by omega
+        rw [this]; exact numpy_pathY front body j hj hws
+      · rw [findEnd_ws _ _ hws]; exact numpy_pathX front body
+  obtain ⟨ca, X, R, h4, hXR, hX, hR⟩ := h4
+  rw [tokenLastIdx_pipeline _ _ _ lfe _ _ h1 h2 h3 h4]
+  -- no token where the forward `while` would start
+  have hdropR : (front ++ '\n' :: body).drop (front.length + X.length + 1) = R := by
+    have : front ++ '\n' :: body = (front ++ ['\n'] ++ X) ++ R := by rw [hXR]; simp
+    rw [this, List.drop_append, List.drop_of_length_le (by simp; omega), List.nil_append]
+    have : front.length + X.length + 1 - (front ++ ['\n'] ++ X).length = 0 := by simp; omega
+    rw [this]; rfl
+  have hidx : (((front.length + X.length : Nat) : Int)) + 1 = ((front.length + X.length + 1 : Nat) : Int) := by omega
+  simp only [hidx, slice_from_nat, hdropR]
+  have hst : ((leadingWs R : Nat) : Int) + ((front.length + X.length : Nat) : Int) + 1
+      = ((front.length + X.length + 1 + leadingWs R : Nat) : Int) := by omega
+  have hdropS : (front ++ '\n' :: body).drop (front.length + X.length + 1 + leadingWs R) = skipInd R := by
+    rw [← List.drop_drop, hdropR, hR]
+  have hntok : startsWithAny tokensSet (skipInd R) = false := by
+    rw [hXR] at hls
+    apply lineStartsOk_sound X R true hls
+    rcases hX with h | h
+    · exact Or.inl ⟨h, rfl⟩
+    · exact Or.inr h
+  simp only [hst, slice_from_nat, hdropS, hntok, Bool.false_eq_true, if_false, Option.getD_some]
+  -- the line at `last_found_starts` is the underline
+  have hnn := noNext_eval (p ++ ['\n'] ++ K ++ ['\n']) D ('\n' :: body) hDnl (Or.inr rfl)
+  have hdd : p ++ ['\n'] ++ K ++ ['\n'] ++ D ++ '\n' :: body = front ++ '\n' :: body := by rw [← hfront]
+  have hpl : (((p ++ ['\n'] ++ K ++ ['\n']).length : Nat) : Int) = ((p.length + 1 + K.length + 1 : Nat) : Int) := by
+    simp only [List.length_append, List.length_singleton]
+  have hDe : (!D.isEmpty && allDashes D) = true := by
+    cases D with
+    | nil => exact absurd rfl hDne
+    | cons _ _ => simpa using hD
+  rw [hdd, hpl, hDe] at hnn
+  simp only [if_true] at hnn
+  rw [hnn]
+  simp only [cStart, List.length_append, List.length_singleton]
+
+/-! ### `_get_token_start_idx` and the format on a NumPy docstring -/
+
+theorem lstrip_word (K : Str) (h : ∀ c ∈ K, isSpaceC c = false) : lstrip K = K ∧ leadingWs K = 0 := by
+  cases K with
+  | nil => exact ⟨rfl, rfl⟩
+  | cons c cs =>
+    have hc := h c List.mem_cons_self
+    exact ⟨by simp [lstrip, hc], leadingWs_ns c cs hc⟩
+
+/-- the header lines are skipped, the first heading followed by its underline stops the scan -/
+theorem numpy_start (hs : List Str) (F0 F1 rest : Str)
+    (hh : hs.all headerLineOk = true) (hF0 : inSet numpySet F0 = true) (hF1 : allDashes F1 = true) :
+    tokenStartIdx (unlines hs ++ F0 ++ '\n' :: (F1 ++ '\n' :: rest)).toArray = ((unlines hs).length : Int) := by
+  obtain ⟨hw, _, _, _, hnl⟩ := numpy_word_facts F0 hF0
+  obtain ⟨hls, hlw⟩ := lstrip_word F0 hw
+  obtain ⟨_, hF1nl⟩ := dashes_facts F1 hF1
+  rw [tokenStartIdx_eq]
+  generalize hdd : unlines hs ++ F0 ++ '\n' :: (F1 ++ '\n' :: rest) = d
+  have hd1 : d = unlines hs ++ (F0 ++ '\n' :: (F1 ++ '\n' :: rest)) := by rw [← hdd]; simp
+  have hd2 : d = (unlines hs ++ F0 ++ ['\n']) ++ F1 ++ '\n' :: rest := by rw [← hdd]; simp
+  have hstep : startScan d d 0 [] = startScan d (F0 ++ '\n' :: (F1 ++ '\n' :: rest)) (0 + (unlines hs).length) [] := by
+    conv => lhs; arg 2; rw [hd1]
+    exact startScan_header d hs _ 0 (headerOk_sound hs hh)
+  rw [hstep, startScan_fire_numpy d F0 _ _ hnl (by rw [hls]; exact hF0)]
+  · simp
+  · rw [hlw]
+    have hi : 0 + (0 + (unlines hs).length + F0.length) + 1 = (unlines hs ++ F0 ++ ['\n']).length := by
+      simp only [List.length_append, List.length_singleton]; omega
+    rw [hi]
+    have hfind : findAtI d ['\n'] (unlines hs ++ F0 ++ ['\n']).length
+        = (((unlines hs ++ F0 ++ ['\n']).length + F1.length : Nat) : Int) := by
+      rw [hd2]; exact findAtI_line _ F1 rest hF1nl
+    rw [hfind, slice_mid_nat]
+    have aux : ∀ a b : Str, (a ++ F1 ++ b).drop a.length = F1 ++ b := by
+      intro a b; rw [List.append_assoc, List.drop_left]
+    have : d.drop (unlines hs ++ F0 ++ ['\n']).length = F1 ++ '\n' :: rest := by
+      rw [hd2]; exact aux _ _
+    rw [this]
+    have h2 : (unlines hs ++ F0 ++ ['\n']).length + F1.length - (unlines hs ++ F0 ++ ['\n']).length = F1.length := by omega
+    rw [h2, List.take_left']
+    · exact hF1
+    · rfl
+
+/-! ### a body without a colon (the usual `Returns` section): the line loop never moves -/
+
+theorem mem_slice_drop {c : Char} (d : Str) (a b k : Nat) (hk : k ≤ a) (h : c ∈ slice d (some (a : Int)) (some (b : Int))) :
+    c ∈ d.drop k := by
+  rw [slice_mid_nat] at h
+  have h1 : c ∈ d.drop a := List.mem_of_mem_take h
+  have : d.drop a = (d.drop k).drop (a - k) := by rw [List.drop_drop]; congr 1; omega
+  rw [this] at h1
+  exact List.mem_of_mem_drop h1
+
+theorem loopC_no_colon (front body : Str) (h : ':' ∉ body) :
+    ((loopC (front ++ '\n' :: body).toArray).run (cStart (front.length + 1))).1.prevEnd = front.length + 1 := by
+  generalize hdd : front ++ '\n' :: body = d
+  have hbody : d.drop (front.length + 1) = body := by rw [← hdd]; exact drop_after_nl front body
+  have := run_invariant (loopC d.toArray)
+    (fun st => st.prevNo = none ∧ st.prevEnd = front.length + 1 ∧ front.length + 1 ≤ st.lineStart ∧ front.length + 1 ≤ st.lineEnd)
+    (by
+      intro st st' hinv hstep
+      obtain ⟨h1, h2, h3, h4⟩ := hinv
+      simp only [loopC] at hstep
+      split at hstep
+      · injection hstep with hstep
+        subst hstep
+        have hline : (sl d.toArray (some (st.lineStart : Int))
+            (some ((st.lineEnd + countUntilNl (sl d.toArray (some (st.lineStart : Int)) none) : Nat) : Int))).contains ':' = false := by
+          rw [sl_eq]
+          cases hc : (slice d (some (st.lineStart : Int))
+              (some ((st.lineEnd + countUntilNl (sl d.toArray (some (st.lineStart : Int)) none) : Nat) : Int))).contains ':' with
+          | false => rfl
+          | true =>
+            have hm := mem_slice_drop d _ _ (front.length + 1) h3 (List.contains_iff_mem.mp hc)
+            rw [hbody] at hm; exact absurd hm h
+        simp only [h1, hline]
+        have hnone : ∀ x : Int, (some x == (none : Option Int)) = false := fun _ => rfl
+        simp only [hnone, Bool.false_eq_true, if_false]
+        split
+        · exact ⟨h1, h2, by omega, by omega⟩
+        · exact ⟨h1, h2, by omega, by omega⟩
+      · cases hstep)
+    (by intro st st' _ h; simp only [loopC] at h; split at h <;> cases h)
+    (by intro st _ h; simp only [loopC] at h; split at h <;> cases h)
+    (cStart (front.length + 1)) ⟨rfl, rfl, Nat.le_refl _, Nat.le_refl _⟩
+  exact this.1.2.1
+
 end DSS
